@@ -1051,7 +1051,7 @@ class FluidParticle(FluidMixture):
             if np.sum(mi[0,:]) == 0.:
                 # Single-phase liquid
                 rho = FluidMixture.density(self, mi[1,:], T, P)[1, 0]
-            elif np.sum(mi[1,:] == 0):
+            elif np.sum(mi[1,:]) == 0.:
                 # Single-phase gas
                 rho = FluidMixture.density(self, mi[0,:], T, P)[0, 0]
             else:
@@ -1110,7 +1110,7 @@ class FluidParticle(FluidMixture):
             if np.sum(mi[0,:]) == 0.:
                 # Single-phase liquid
                 fk = FluidMixture.fugacity(self, mi[1,:], T, P)[1, :]
-            elif np.sum(mi[1,:] == 0):
+            elif np.sum(mi[1,:]) == 0.:
                 # Single-phase gas
                 fk = FluidMixture.fugacity(self, mi[0,:], T, P)[0, :]
             else:
@@ -1163,9 +1163,9 @@ class FluidParticle(FluidMixture):
             if np.sum(mi[0,:]) == 0.:
                 # Single-phase liquid
                 mu = FluidMixture.viscosity(self, mi[1,:], T, P)[1, 0]
-            elif np.sum(mi[1,:] == 0):
+            elif np.sum(mi[1,:]) == 0.:
                 # Single-phase gas
-                mu = FluidMixture.viscosity(self, mi[0,:], T, P)[1, 0]
+                mu = FluidMixture.viscosity(self, mi[0,:], T, P)[0, 0]
             else:
                 # Compute the viscosity and density of each phase
                 mu_p = np.zeros(2)
@@ -1229,7 +1229,7 @@ class FluidParticle(FluidMixture):
                 # Single-phase liquid
                 sigma = FluidMixture.interface_tension(
                     self, mi[1,:], T, S, P)[1, 0]
-            elif np.sum(mi[1,:] == 0):
+            elif np.sum(mi[1,:]) == 0.:
                 # Single-phase gas
                 sigma = FluidMixture.interface_tension(
                     self, mi[0,:], T, S, P)[0, 0]
@@ -1304,7 +1304,7 @@ class FluidParticle(FluidMixture):
             if np.sum(mi[0,:]) == 0.:
                 # Single-phase liquid
                 Cs = FluidMixture.solubility(self, mi[1,:], T, P, Sa)[1, :]
-            elif np.sum(mi[1,:] == 0):
+            elif np.sum(mi[1,:]) == 0.:
                 # Single-phase gas
                 Cs = FluidMixture.solubility(self, mi[0,:], T, P, Sa)[0, :]
             else:
